@@ -42,6 +42,10 @@ impl Prop for C19 {
         for _ in 0..(if th { 40 } else { 8 }) {
             v.push(case(&[("kind", "aead".into()), ("pl", rng.range(131, 70 * 1024).to_string()), ("al", rng.range(0, 300).to_string()), ("alt", alts[rng.below(5)].into()), ("seed", rng.next().to_string())]));
         }
+        // degenerate but legal keys and nonces (all-zero, all-ones, a single set bit): RFC 8439 defines the AEAD for every 256-bit key
+        for kp in ["zero", "ones", "bit0", "bit255", "zerokey-only"] { for pl in [0usize, 1, 16, 64, 100] {
+            v.push(case(&[("kind", "aead".into()), ("pl", pl.to_string()), ("al", (pl % 3 * 6).to_string()), ("alt", alts[rng.below(5)].into()), ("kp", kp.into()), ("seed", rng.next().to_string())]));
+        } }
         for l in 0..=17usize { for al in [0usize, 4] { v.push(case(&[("kind", "short".into()), ("cl", l.to_string()), ("al", al.to_string()), ("seed", rng.next().to_string())])); } }
         let mut ctrs: Vec<u64> = vec![0, 1, 255, 256, 65535, 65536, (1 << 32) - 1, 1 << 32, 1 << 56, 1 << 63, u64::MAX - 1];
         for _ in 0..(if th { 200 } else { 30 }) { ctrs.push(rng.next() % (u64::MAX - 1)); }
@@ -55,6 +59,11 @@ impl Prop for C19 {
         for kl in 0..=130usize { if th || kl % 3 == 0 || (60..70).contains(&kl) { v.push(case(&[("kind", "hmac".into()), ("kl", kl.to_string()), ("ml", rng.range(0, 150).to_string()), ("seed", rng.next().to_string())])); } }
         for l in 0..=200usize { if th || l % 4 == 0 || (50..70).contains(&l) || (115..130).contains(&l) { v.push(case(&[("kind", "sha".into()), ("l", l.to_string()), ("seed", rng.next().to_string())])); } }
         v.push(case(&[("kind", "sha".into()), ("l", (if th { 1 << 20 } else { 70000 }).to_string()), ("seed", rng.next().to_string())]));
+        // long inputs (a patterned message the OpenSSL post-check regenerates): around 1 MiB and not a multiple of any power-of-two block
+        for l in [(1usize << 20) - 1, 1 << 20, (1 << 20) + 1, (3 << 20) + 5, if th { (16 << 20) + 13 } else { (2 << 20) + 77 }] {
+            v.push(case(&[("kind", "shabig".into()), ("l", l.to_string()), ("seed", (rng.next() % 251).to_string())]));
+            v.push(case(&[("kind", "hmacbig".into()), ("l", l.to_string()), ("seed", (rng.next() % 251).to_string())]));
+        }
         for _ in 0..(if th { 100 } else { 20 }) { v.push(case(&[("kind", "hkdfnoise".into()), ("il", (*rng.pick(&[0usize, 32, 32, 1, 64, 100])).to_string()), ("seed", rng.next().to_string())])); }
         v
     }
@@ -66,8 +75,10 @@ impl Prop for C19 {
         match kind {
             "aead" => {
                 let (pl, al) = (getn(c, "pl"), getn(c, "al"));
-                let key = rng.bytes(32); let nonce = rng.bytes(12); let ad = rng.bytes(al); let pt = rng.bytes(pl);
-                o.nontrivial = Some(format!("aead/{}/{}/{}", pl, al, get(c, "alt")));
+                let mut key = rng.bytes(32); let mut nonce = rng.bytes(12); let ad = rng.bytes(al); let pt = rng.bytes(pl);
+                match get(c, "kp") { "zero" => { key = vec![0; 32]; nonce = vec![0; 12]; } "ones" => { key = vec![0xff; 32]; nonce = vec![0xff; 12]; }
+                    "bit0" => { key = vec![0; 32]; key[0] = 1; } "bit255" => { key = vec![0; 32]; key[31] = 0x80; } "zerokey-only" => { key = vec![0; 32]; } _ => {} }
+                o.nontrivial = Some(format!("aead/{}/{}/{}/{}", pl, al, get(c, "alt"), get(c, "kp")));
                 let ct = guard(|| kestrel_crypto::chapoly_encrypt_ietf(&key, &nonce, &pt, &ad));
                 let Some(ct) = ct else { o.impl_obs = "crash".into(); o.oracle_fail = Some(("seal-no-panic".into(), "chapoly_encrypt_ietf panicked".into())); return o; };
                 let mct = m.ask(&format!("aead_seal {} {} {} {}", hex(&key), hex(&nonce), hexd(&ad), hexd(&pt)));
@@ -188,6 +199,15 @@ impl Prop for C19 {
                 match r { None => o.oracle_fail = Some(("hmac-no-panic".into(), format!("hmac_sha256 panicked for a {}-byte key", key.len()))),
                     Some(x) => if mr != format!("ok {}", hex(&x)) { o.oracle_fail = Some(("hmac=RFC2104".into(), format!("hmac_sha256 differs from the model for a {}-byte key", key.len()))); } }
                 o.tags.push(format!("@hmac {} {} {}", hexd(&key), hexd(&msg), o.impl_obs));
+            }
+            "shabig" | "hmacbig" => {
+                let seed: usize = get(c, "seed").parse().unwrap_or(0); let l = getn(c, "l");
+                let msg: Vec<u8> = (0..l).map(|i| ((i * 31 + seed) & 0xff) as u8).collect();
+                o.nontrivial = Some(format!("{}/{}", kind, l));
+                let r = if kind == "shabig" { guard(|| kestrel_crypto::sha256(&msg)) } else { guard(|| kestrel_crypto::hmac_sha256(&msg[..l / 2], &msg[l / 2..])) };
+                o.impl_obs = r.as_ref().map(|x| hex(x)).unwrap_or("crash".into()); o.model_obs = "(OpenSSL post-check on the regenerated message)".into(); o.validated += 1;
+                match r { None => o.oracle_fail = Some(("hash-no-panic".into(), format!("{} panicked on a {}-byte input", kind, l))),
+                    Some(_) => o.tags.push(format!("@{} {} {} {}", kind, seed, l, o.impl_obs)) }
             }
             _ => {
                 let msg = rng.bytes(getn(c, "l"));
